@@ -33,7 +33,7 @@ ProdFactSeq(s, i) == IF i = 0 THEN 1 ELSE FactD(s[i]) * ProdFactSeq(s, i - 1)
 
 (* number of equivalent orderings of a genotype: DEFINED by enumeration       *)
 Orderings(g) == LET p == Len(g) IN
-   {[i \in 1..p |-> g[f[i]]] : f \in {h \in [1..p -> 1..p] : \A a, b \in 1..p : a # b => h[a] # h[b]}}
+   {[i \in 1..p |-> g[f[i]]] : f \in Permutations(1..p)}      \* TLC module: all bijections of 1..p
 PermCountEnum(g) == Cardinality(Orderings(g))
 (* the closed form the code uses: ploidy! / prod dosage!                     *)
 PermCountClosed(d) == FactD(SumD(d)) \div ProdFactSeq(d, Len(d))
